@@ -312,3 +312,68 @@ def _chk_corr(args, res, old):
 
 contract("prop::C04.single_correction", params=dict(target=ObjT("CopyNumArray")), bounded=True, gen=_gen_corr, call=_call_corr,
          props=("C04",), checks=[("rolling_median_by_covariate", _chk_corr)])
+
+
+# ----------------------------------------------------------------------------- deductive: reference filters and edge formulas
+from .c_call import CHROM, GENE      # noqa: E402
+
+_REF = ObjT("CopyNumArray", data=TabT(opt=("depth", "gc"), index="range", chromosome=CHROM, start=Int, end=Int, gene=GENE,
+                                      log2=Real, spread=Real, depth=Real, gc=Real), meta=DictT())
+
+contract(
+    "cnvlib/fix.py::mask_bad_bins",
+    params=dict(cnarr=_REF),
+    returns=SeriesT(Bool, like="cnarr"),
+    requires=[],
+    ensures=[
+        ("rowcount", "len(result) == len(cnarr.data)"),
+        # the reference filters of the statement: log2 within +-5, spread <= 1, depth > 0 (here: not 0), GC within 0.3-0.7
+        ("bad_iff_fails_a_filter", "forall(0, len(result), lambda k: result[k] == ("
+         "cnarr.data.log2[k] < -5 or cnarr.data.log2[k] > 5 or cnarr.data.spread[k] > 1 or "
+         "('depth' in cnarr.data and cnarr.data.depth[k] == 0) or "
+         "('gc' in cnarr.data and (cnarr.data.gc[k] > 0.7 or cnarr.data.gc[k] < 0.3))))"),
+    ],
+    props=("C04",),
+    domain="skip",
+    canaries=[("lt_to_le", 'cnarr["log2"] < params.MIN_REF_COVERAGE', 'cnarr["log2"] <= params.MIN_REF_COVERAGE'),
+              ("spread_ge", 'cnarr["spread"] > params.MAX_REF_SPREAD', 'cnarr["spread"] >= params.MAX_REF_SPREAD'),
+              ("gc_upper_ge", 'cnarr["gc"] > upper_gc_bound', 'cnarr["gc"] >= upper_gc_bound'),
+              ("depth_dropped", 'mask |= cnarr["depth"] == 0', "pass")],
+)
+
+contract(
+    "cnvlib/fix.py::edge_losses",
+    params=dict(target_sizes=VecT(Int), insert_size=Int),
+    returns=VecT(Real),
+    requires=["insert_size > 0", "forall(0, len(target_sizes), lambda k: target_sizes[k] > 0)"],
+    ensures=[
+        ("rowcount", "len(result) == len(target_sizes)"),
+        # documented formula: i/2t, reduced by (i-t)^2 / 2it when the bin is narrower than the insert size
+        ("formula", "forall(0, len(result), lambda k: result[k] == insert_size / (2 * target_sizes[k]) - "
+                    "ite(target_sizes[k] < insert_size, (insert_size - target_sizes[k]) * (insert_size - target_sizes[k]) / "
+                    "(2 * insert_size * target_sizes[k]), 0))"),
+    ],
+    props=("C04",), domain="skip", ghost=dict(nonlinear=True),
+    canaries=[("mask_le", "target_sizes < insert_size", "target_sizes <= insert_size - 2"),
+              ("no_shoulder", "losses[small_mask] -= ", "losses[small_mask] += ")],
+)
+
+contract(
+    "cnvlib/fix.py::edge_gains",
+    params=dict(target_sizes=VecT(Int), gap_sizes=VecT(Int), insert_size=Int),
+    returns=VecT(Real),
+    requires=["insert_size > 0", "len(target_sizes) == len(gap_sizes)",
+              "forall(0, len(target_sizes), lambda k: target_sizes[k] > 0)",
+              "forall(0, len(gap_sizes), lambda k: gap_sizes[k] <= insert_size)"],
+    ensures=[
+        ("rowcount", "len(result) == len(target_sizes)"),
+        # documented formula with g = max(0, gap): (i-g)^2 / 4it, reduced by (i-t-g)^2 / 4it when t+g < i
+        ("formula", "forall(0, len(result), lambda k: let(lambda g, t: result[k] == "
+                    "(insert_size - g) * (insert_size - g) / (4 * insert_size * t) - "
+                    "ite(t + g < insert_size, (insert_size - t - g) * (insert_size - t - g) / (4 * insert_size * t), 0), "
+                    "ite(gap_sizes[k] > 0, gap_sizes[k], 0), target_sizes[k]))"),
+    ],
+    props=("C04",), domain="skip", ghost=dict(nonlinear_clauses=("formula",)), may_raise=("ValueError",),
+    canaries=[("no_clamp", "gap_sizes = np.maximum(0, gap_sizes)", "gap_sizes = gap_sizes"),
+              ("mask_le", "target_sizes + gap_sizes < insert_size", "target_sizes + gap_sizes <= insert_size - 2")],
+)
